@@ -346,7 +346,7 @@ class TerminalDevice(Device):
             for v, vtype in zip(values, var_types):
                 if vtype == 1:  # INTEGER
                     try:
-                        v = int(v)
+                        v = parse_integral(v)
                     except ValueError:
                         return False
                     if v < -32768 or v > 32767:
@@ -354,7 +354,7 @@ class TerminalDevice(Device):
                     converted.append((CellType.INTEGER, v))
                 elif vtype == 2:  # LONG
                     try:
-                        v = int(v)
+                        v = parse_integral(v)
                     except ValueError:
                         return False
                     if v < -2**31 or v >= 2**31:
@@ -365,6 +365,8 @@ class TerminalDevice(Device):
                         v = float(v)
                     except ValueError:
                         return False
+                    if v != v or v in (float('inf'), float('-inf')):
+                        return False  # "nan" and "inf" are not numbers
                     if not expr.Type.SINGLE.can_hold(v):
                         return False
                     converted.append((CellType.SINGLE, v))
@@ -373,6 +375,8 @@ class TerminalDevice(Device):
                         v = float(v)
                     except ValueError:
                         return False
+                    if v != v or v in (float('inf'), float('-inf')):
+                        return False  # "nan" and "inf" are not numbers
                     if not expr.Type.DOUBLE.can_hold(v):
                         return False
                     converted.append((CellType.DOUBLE, v))
